@@ -39,6 +39,7 @@ FUNCS = {
 }
 # whole files (macro headers that are #included into a function body, generic code instantiated by several backends): name "*"
 WHOLE = {
+    "C04": ["crypto_onetimeauth/poly1305/sse2/poly1305_sse2.c"],
     "C07": ["crypto_core/ed25519/ref10/fe_51/constants.h", "crypto_core/ed25519/core_ristretto255.c", "crypto_scalarmult/ristretto255/ref10/scalarmult_ristretto255_ref10.c"],
     "C08": ["crypto_pwhash/argon2/blamka-round-avx2.h", "crypto_pwhash/argon2/argon2-fill-block-avx2.c", "crypto_pwhash/argon2/blamka-round-ssse3.h", "crypto_pwhash/argon2/argon2-fill-block-ssse3.c",
             "crypto_pwhash/argon2/blamka-round-avx512f.h", "crypto_pwhash/argon2/argon2-fill-block-avx512f.c", "crypto_pwhash/argon2/blamka-round-ref.h", "crypto_pwhash/argon2/argon2-fill-block-ref.c", "crypto_pwhash/argon2/blake2b-long.c",
